@@ -613,7 +613,7 @@ def _ite_struct(ce, a, b):
         return a
     if isinstance(a, SCases) or isinstance(b, SCases):
         return SCases(_as_cases(ce, a) + _as_cases(z3.Not(ce), b))
-    if type(a).__name__ == "SObj" and type(b).__name__ == "SObj" and a.cls is b.cls and set(a.fields) == set(b.fields):
+    if type(a).__name__ == "SObj" and type(b).__name__ == "SObj" and set(a.fields) == set(b.fields) and (a.cls is b.cls or issubclass(b.cls, a.cls)):
         # two objects of one class with the same fields (canvases stored in a list): field-wise conditional
         parts = {k: _ite_struct(ce, a.fields[k], b.fields[k]) for k in a.fields}
         if any(p is _NOITE for p in parts.values()):
@@ -755,6 +755,31 @@ def forall(lo, hi, fn):
         # in-range index: they are asserted on their own, not made part of the formula (which may be a goal)
         st.assume(z3.ForAll([j], z3.Implies(rng, z3.And(*facts))))
     return mk_bool(z3.ForAll([j], z3.Implies(rng, b)))
+
+
+def arbitrary(name):
+    """An arbitrary integer: one unconstrained constant per (path, name), shared by loop invariants, contracts of
+    callees and postconditions.  Nothing may be assumed about it except instances of facts that hold for every
+    integer (proved lemmas, verified per-index postconditions), so a formula proved for it holds universally
+    (universal generalisation) -- this keeps "for every index" obligations quantifier-free."""
+    st = cur()
+    d = st.ghost.setdefault("arbitrary", {})
+    if name not in d:
+        d[name] = st.fresh_int(name)
+    return d[name]
+
+
+def lazy_forall(lo, hi, fn):
+    """Record the fact `for all lo <= j < hi: fn(j)` without asserting a quantifier; `instantiate(j...)` asserts its
+    instances at the indices in play (DESIGN 3.7: ground instantiation)."""
+    cur().ghost.setdefault("lazy_forall", []).append((lo, hi, fn))
+
+
+def instantiate(*indices):
+    st = cur()
+    for lo, hi, fn in list(st.ghost.get("lazy_forall", [])):
+        for j in indices:
+            st.assume(implies(both(lo <= j, j < hi), fn(j)))
 
 
 def opt_isnone(x):
